@@ -514,6 +514,10 @@ def oracle_c08(script, c_lines):
                 return pre + "node %d of the entry for key %d has been freed" % (e[2], k)
         if st["tree"] != "hashed":
             nodes = inorder(st["tree"])
+            lost = [n["id"] for n in nodes if n.get("key") is None or n.get("kp") is None]
+            if lost:
+                return pre + ("cstl_map_find does not find the entries stored in nodes %s (looked up by every key "
+                              "after the operation)" % lost)
             got = sorted((n["key"], n.get("kp"), n.get("val"), n["id"]) for n in nodes)
             want = sorted((k, e[0], e[1], e[2]) for k, e in ref.items())
             if got != want:
@@ -630,7 +634,12 @@ def corpus(prop=None):
                       ["bt ins %d %d" % (4 + i, 100001 + i) for i in range(depth)]
         zigzag = ["bt ins 1 100000", "bt ins 2 200000"] + \
                  ["bt ins %d %d" % (3 + i, (1000 + i) if i % 2 == 0 else (99000 - i)) for i in range(depth)]
-        for base in (left_chain, right_chain, zigzag):
+        # combs: a spine of `depth` nodes each of which also has the other child (subtrees pending at every level)
+        comb_l, comb_r = ["bt ins 1 1000000"], ["bt ins 1 0"]
+        for i in range(depth):
+            comb_l += ["bt ins %d %d" % (2 + 2 * i, 999990 - 10 * i), "bt ins %d %d" % (3 + 2 * i, 999995 - 10 * i)]
+            comb_r += ["bt ins %d %d" % (2 + 2 * i, 10 + 10 * i), "bt ins %d %d" % (3 + 2 * i, 5 + 10 * i)]
+        for base in (left_chain, right_chain, zigzag, comb_l, comb_r):
             out.append(base + ["bt fe fwd -1", "bt fe rev -1", "bt clear", "bt ins 1 5", "bt fe fwd -1"])
             out.append(base + ["bt erase 100000", "bt erase 200000", "bt fe fwd -1", "bt clear", "bt clear"])
     out += [
